@@ -454,11 +454,14 @@ def run_miri_child_job(job, prop, seed, tag):
     cmd0 = engine_cmd("e3")
     env = engine_env("e3")
 
+    modes = job.get("modes", ["deadclone"])
+
     def one(i):
         r = ShardResult()
         r.processes = 1
+        mode = modes[i % len(modes)]
         try:
-            p = subprocess.run(cmd0 + ["child", "--mode", "deadclone", "--idx", str(i), "--seed", str(seed), "--light"],
+            p = subprocess.run(cmd0 + ["child", "--mode", mode, "--idx", str(i), "--seed", str(seed), "--light"],
                                cwd=HARNESS, env=env, stdout=subprocess.PIPE, stderr=subprocess.PIPE, text=True, timeout=600)
         except subprocess.TimeoutExpired:
             r.inconclusive.append({"why": "miri child %d timed out" % i})
@@ -468,7 +471,7 @@ def run_miri_child_job(job, prop, seed, tag):
         after = "AFTER-CLONE" in out
         desc = next((l[11:] for l in out.splitlines() if l.startswith("CHILD-DESC ")), "")
         ops = next((l[10:] for l in out.splitlines() if l.startswith("CHILD-OPS ")), "")
-        coord = "deadclone(miri) seed=%d idx=%d [%s]" % (seed, i, desc)
+        coord = "%s(miri) seed=%d idx=%d [%s]" % (mode, seed, i, desc)
         s = {"histories": 1, "nontrivial": 1 if before else 0, "distinct_nontrivial": 1 if before else 0,
              "samples": [coord + " :: " + ops], "stats": {"dead_clones_attempted": 1 if before else 0}}
         r.summary = s
@@ -484,7 +487,7 @@ def run_miri_child_job(job, prop, seed, tag):
         if bad:
             r.violations.append({"kind": "violation", "prop": "C16", "rule": "deadclone", "hard": True, "msg": bad, "coord": coord,
                                  "class": "DEAD", "engine": "e3", "known_sig": "", "ops": ops, "log": err.splitlines()[-30:],
-                                 "job_args": ["child", "--mode", "deadclone", "--idx", str(i), "--seed", str(seed)], "child": True})
+                                 "job_args": ["child", "--mode", mode, "--idx", str(i), "--seed", str(seed)], "child": True})
         return r
 
     with ThreadPoolExecutor(max_workers=NCPU) as ex:
